@@ -55,6 +55,24 @@ theorem codec_history_empty_when_drained (ops : List BOp) (hops : ∀ o ∈ ops,
     (h : (fifoSpec [] ops).2 = []) : (history [] [] ops).2 = [] := by
   rw [codec_history_fifo ops hops, h]; rfl
 
+/-- raw bytes come back through all three raw readers: `Read(p)` is `codec_roundtrip_value (.raw p)`; `ZReadN(len p)`
+    always; `ReadN(len p)` for a non-empty slice … -/
+theorem raw_roundtrip_zreadN' (p rest : Bytes) : decBuf (.zreadN p.length) (p ++ rest) = (.ok (.raw p), rest) :=
+  raw_roundtrip_zreadN p rest
+
+theorem raw_roundtrip_readN' (p rest : Bytes) (h : p ≠ []) : decBuf (.readN p.length) (p ++ rest) = (.ok (.raw p), rest) :=
+  raw_roundtrip_readN p rest h
+
+/-- … while `ReadN(0)` (the read-back of an empty raw write) is refused, as coded, and consumes nothing -/
+theorem readN_zero_refused (bs : Bytes) : decBuf (.readN 0) bs = (.err .wrongNum, bs) := by simp [decBuf]
+
+/-- the buffers the constructors make: nothing unread, whatever the capacity (bodies pinned by the surface tie);
+    so every round-trip theorem above starts from them -/
+theorem codec_roundtrip_from_constructors (n : Nat) (vs : List Val) (h : ∀ v ∈ vs, Valid v) :
+    readAll (vs.map tyOf) (writeAll vs newBuffer) = (vs.map .ok, []) ∧
+    readAll (vs.map tyOf) (writeAll vs (newSized n)) = (vs.map .ok, []) :=
+  ⟨codec_roundtrip vs h, codec_roundtrip vs h⟩
+
 /-- a size-limited string beyond its limit is refused and nothing is written -/
 theorem write_over_limit (l : UInt32) (s buf : Bytes) (h : l.toNat < s.length) (hs : s.length < 2 ^ 32) :
     write (.lstr l s) buf = (.err .sizeLimit, buf) := by
@@ -74,9 +92,36 @@ theorem decode_truncated_errors (v : Val) (n : Nat) (h : Valid v) (hn : n < (enc
     ∃ e, (decBuf (tyOf v) ((enc v).take n)).1 = .err e :=
   truncated_one v n h hn
 
-/-- on arbitrary bytes a read (total by construction: never a panic) only consumes from the front: what is left is a
-    suffix of the input, whether it returned a value or an error -/
-theorem decode_total (ty : Ty) (bs : Bytes) : (decBuf ty bs).2 <:+ bs := decBuf_suffix ty bs
+/-- no read panics: with the panicking Go primitives explicit (`Next`/`make` with a negative count; `int(n)` of the
+    length field on a 64-bit `int`), every typed read on every byte string reaches a result — a value or one of the
+    error values — and that result is the one of `decBuf`. (Allocation failure is outside the model: see docs.) -/
+theorem decode_never_panics (ty : Ty) (bs : Bytes) : decBufP 64 ty bs = some (decBuf ty bs) := decBufP_eq ty bs
+
+/-- the same for `ReaderX.ReadN` (`make` is the only panicking primitive of ioreader.go), for every configuration -/
+theorem stream_readN_never_panics (c : Cfg) (n : Int) (s : Src) : streamReadNP c n s = some (streamReadN c n s) :=
+  streamReadNP_eq c n s
+
+/-- on a 32-bit `int` the guard is missing: a length field ≥ 2^31 becomes a negative `Next` count (witness) -/
+theorem witness_int32_panics : decBufP 32 .str [0xff, 0xff, 0xff, 0xff, 1] = none := by decide
+
+/-- on arbitrary bytes a read never panics, returns a value or an error, and only consumes from the front: what is
+    left is a suffix of the input -/
+theorem decode_total (ty : Ty) (bs : Bytes) :
+    decBufP 64 ty bs = some (decBuf ty bs) ∧
+    ((∃ v, (decBuf ty bs).1 = .ok v) ∨ (∃ e, (decBuf ty bs).1 = .err e)) ∧
+    (decBuf ty bs).2 <:+ bs := by
+  refine ⟨decBufP_eq ty bs, ?_, decBuf_suffix ty bs⟩
+  cases (decBuf ty bs).1 with
+  | ok v => exact Or.inl ⟨v, rfl⟩
+  | err e => exact Or.inr ⟨e, rfl⟩
+
+/-- every strict prefix of the encoding of a LIST of values: the reads return the values whose encodings are complete
+    (`pre`), then an error for the value that was cut (`v`) -/
+theorem decode_truncated_list (vs : List Val) (h : ∀ v ∈ vs, Valid v) (n : Nat) (hn : n < (vs.flatMap enc).length) :
+    ∃ pre v post e tail, vs = pre ++ v :: post ∧
+      (pre.flatMap enc).length ≤ n ∧ n < (pre.flatMap enc).length + (enc v).length ∧
+      (readAll (vs.map tyOf) ((vs.flatMap enc).take n)).1 = pre.map .ok ++ .err e :: tail :=
+  truncated_list vs h n hn
 
 /-- a read program on arbitrary bytes: one outcome per read, and what is left is a suffix of the input -/
 theorem decode_program_total (ts : List Ty) (bs : Bytes) :
@@ -111,6 +156,10 @@ theorem rewriteU32_exact (pos : Nat) (v : UInt32) (buf : Bytes) (h : pos + 4 ≤
 theorem rewrite_out_of_range (pos : Int) (p buf : Bytes) (h : pos < 0 ∨ pos > buf.length) :
     rewrite pos p buf = none := by
   simp [rewrite, h]
+
+/-- `ReWrite` panics exactly when `pos` is outside `0 … len` (whatever `p` is: bytes that do not fit are dropped) -/
+theorem rewrite_panics_iff (pos : Int) (p buf : Bytes) : rewrite pos p buf = none ↔ (pos < 0 ∨ pos > buf.length) :=
+  rewrite_none_iff pos p buf
 
 /-! ### (4) the stream reader decodes what the buffer reader decodes, however the source is fragmented -/
 
